@@ -43,8 +43,14 @@ def make_record(c):
         x = rs.randint(0, c["levels"], N).astype(float)
     else:
         x = rs.standard_normal(N)
-        k = max(1, N // 2000)
-        x[rs.choice(N, k, replace=False)] = rs.choice([-1, 1], k) * rs.uniform(6, 30, k)
+        if rs.randint(0, 2):
+            k = max(1, N // 2000)
+            x[rs.choice(N, k, replace=False)] = rs.choice([-1, 1], k) * rs.uniform(6, 30, k)
+        else:
+            # so few isolated pulses that the 99.99% range leaves them out (it drops len - floor(0.9999*len) - 1 samples), from just outside
+            # the range to thousands of full-scale ranges away
+            k = max(1, N - int(N * 0.9999) - 1)
+            x[rs.choice(N, k, replace=False)] = rs.choice([-1, 1], k) * 10 ** rs.uniform(0.8, 5, k)
     return x * c["scale"] + c["offset"] * c["scale"]
 
 
@@ -178,7 +184,43 @@ def e_si(c):
     return {"nontrivial": bool(nt), "classes": [c["kind"] if c["lit"] is None else "literal", "ties" if tied.size >= 2 else "unique-min", "nonadjacent-ties" if nt else "adjacent/none"]}
 
 
+
+def enum_lag(tier, shard, nshards):
+    """every (length, integer percentage) pair: the lag floor(p*len/100) is a step function of both, with exact-integer corners"""
+    top = 600 if tier == "quick" else 5000
+    Ns = sorted(set(range(2, top + 1)) | set(range(50, 4001, 50)) | ({10000, 20000} if tier == "thorough" else set()))
+    for k, N in enumerate(Ns):
+        if k % nshards == shard:
+            yield {"N": N}
+
+
+def e_lag(c):
+    N = c["N"]
+    rs = np.random.RandomState(N)
+    data = rs.standard_normal(N)                       # continuous: no ties, the covering interval of minimal width is unique
+    srt = np.sort(data)
+    ps = [float(p) for p in range(1, 100)] + ([k / 10 for k in range(1, 1000, 7)] if N <= 300 or N % 125 == 0 else [])
+    n = 0
+    for p in ps:
+        lag = int(Fraction(p) * N / 100)               # exact floor(p*len/100)
+        if lag < 1 or lag >= N:
+            continue
+        if Fraction(p) * N / 100 != lag and lag != int(N * p / 100):
+            continue                                    # (non-integer product that the float expression rounds across an integer: not claimed)
+        r = np.asarray(lib(U.shortest_int, data, p)).ravel()
+        lo, hi = float(r[0]), float(r[1])
+        i = int(np.searchsorted(srt, lo))
+        check(i < N and srt[i] == lo and i + lag < N and srt[i + lag] == hi, "shortest_int-not-lag-apart",
+              f"len={N} p={p}: returned ({lo},{hi}) are not order statistics floor(p*len/100)={lag} apart (interval holds {int(((data >= lo) & (data <= hi)).sum())} samples, needs {lag + 1})")
+        check(hi - lo <= float((srt[lag:] - srt[:-lag]).min()) + 1e-12, "shortest_int-not-shortest", f"len={N} p={p}")
+        n += 1
+    return {"nontrivial": n > 0, "weight": max(n, 1), "classes": ["len%50==0" if N % 50 == 0 else "other-len"]}
+
+
 PARTS = [
     Part("adc", e_adc, s_adc(), quick=500, thorough=15000, shards=8, quick_shards=2, rule="non-trivial: >=1 sample outside the estimated full-scale range"),
+    Part("lag_grid", e_lag, kind="enum", enum=enum_lag, shards=16, quick_shards=4, exhaustive=True,
+         rule="exhaustive: every integer percentage 1..99 (plus 143 one-decimal percentages for short lengths) x every length 2..600 (quick) / 2..5000 (thorough) "
+              "and the multiples of 50 up to 4000: end points exactly floor(p*len/100) order statistics apart and of minimal width"),
     Part("shortest_int", e_si, s_si(), quick=3000, thorough=100000, shards=8, rule="non-trivial: >=2 tied minima at non-adjacent positions"),
 ]
